@@ -460,6 +460,23 @@ fn check_inf(c: &AggCase, obs: &mut Obs) -> CheckResult {
         }
         obs.class("one_signed_infinity_sum");
     }
+    // moments of a series that contains an infinite element are not finite numbers (the deviations from
+    // an infinite or undefined mean are undefined): never 0 or any other finite value
+    if n_pos + n_neg >= 1 && c.enc != Enc::F32 {
+        let d: Vec<f64> = materialize(&x);
+        let nv = d.iter().filter(|v| !v.is_nan()).count();
+        let mp = c.mp.min(nv);
+        let (_, var) = with_src!(c, d, |it| sa::vmean_var(it, mp));
+        let sk = with_src!(c, d, |it| sa::vskew(it, mp));
+        let ku = with_src!(c, d, |it| sa::vkurt(it, mp));
+        let sd = with_src!(c, d, |it| sa::vstd(it, mp));
+        for (name, v, need) in [("vvar", var, 2usize), ("vstd", sd, 2), ("vskew", sk, 3), ("vkurt", ku, 4)] {
+            if nv >= need && v.is_finite() {
+                return fail(format!("{}:infinite-element", name), format!("{} of {:?} (min_periods {}) = {}, a finite number although the series contains an infinite element", name, x, mp, v));
+            }
+        }
+        obs.class("moments_with_infinite_element");
+    }
     let n_inf = x.iter().flatten().filter(|v| v.is_infinite()).count();
     obs.set_nontrivial(n_inf >= 1 && x.len() >= 2);
     obs.class_if(mode <= 1 && n_inf >= 1, "every_valid_element_infinite");
